@@ -6,4 +6,4 @@ Definition roots := (Hist.BlockState.step, Hist.BlockState.trace, Hist.BlockStat
                      Hist.BlockState.vpt_pure, Hist.BlockState.simple_pure, Hist.BlockState.columns,
                      Hist.Reuse.build, Hist.Reuse.run, Hist.Reuse.init_state, Hist.Reuse.store_list,
                      Hist.Reuse.shared_summary, Hist.Reuse.fresh_summary, Hist.Reuse.keep_of, Hist.Reuse.mask,
-                     Hist.Reuse.closed, Hist.Reuse.wf, Hist.Reuse.declared_writes).
+                     Hist.Reuse.closed, Hist.Reuse.wf, Hist.Reuse.declared_writes, Hist.Reuse.last_entries).
